@@ -168,6 +168,12 @@ example :
     a.ch 1 = [3, 2] ∧ b.ch 1 = [2, 3] ∧ a.par 2 = some 1 ∧ b.par 2 = some 1 ∧ a.par 3 = some 1 ∧ b.par 3 = some 1 ∧
     a.ch 2 = [] ∧ b.ch 2 = [] := by decide
 
+/-- a move disturbs nothing else: in every `Children` list the other children keep their places and their order (the
+lists with the moved child taken out are the same before and after) -/
+theorem C05_move_keeps_sibling_order (h : Hier.H) (p c q : Nat) :
+    ((Hier.addChild h p c).ch q).filter (· != c) = (h.ch q).filter (· != c) :=
+  Hier.addChild_siblings_keep_order h p c q
+
 /-- (tie) hierarchies in the joining snapshot: parent pairs are listed after every entity, for pairs of tracked entities only,
 and the joiner drops a pair only when it does not know one of the two -/
 theorem C05_snapshot_links_tie :
